@@ -65,9 +65,15 @@ def check_case(ctx, case):
         doc = '+-+\n# Legend:\na' + payload + ' = {fill:red}\n'
     elif ch == 'soup':
         doc = payload
+    elif ch == 'setting':
+        # the payload as the colour / font settings, under every combination of the include switches: the settings are
+        # written into the document as well (today: into the style sheet), it has to stay a document
+        doc = '+-+\nab "c"\n'
     else:
         raise ValueError(ch)
     kw = dict(case.get('kw', {}))
+    if ch == 'setting':
+        kw.update(case['settings'])
     r = ctx.conv(doc, **kw)
     ctx.note(key_of(doc, sorted(kw.items())), significant(payload), 'channel_' + ch,
              'illegal_char_documents' if any(xml_illegal(c) for c in payload) else 'legal_only_documents')
@@ -175,7 +181,7 @@ def run_shard(ctx, shard):
                     return chr(c)
         n = rng.randint(1, 40) if rng.random() < 0.3 else rng.randint(1, 8)
         s = ''.join(rch() for _ in range(n))
-        ch = rng.choice(['plain', 'quoted', 'legend', 'soup', 'tag', 'legname'])
+        ch = rng.choice(['plain', 'quoted', 'legend', 'soup', 'tag', 'legname', 'setting'])
         if ch == 'quoted':
             s = s.replace('"', '').replace('\\', '').replace('\n', '').replace('\r', '') or '<'
         elif ch == 'legend':
@@ -188,6 +194,9 @@ def run_shard(ctx, shard):
             # anything, several rows, drawing characters mixed in
             s = s + rng.choice(['', '\n', '\n+--+\n', '\n# Legend:\na = {' + s.replace('{', '').replace('}', '') + '}\n'])
         case = {'channel': ch, 'payload': s, 'kw': kw_of(rng.randrange(24))}
+        if ch == 'setting':
+            case['kw'] = {'entry': rng.choice([3, 4]), 'flags': rng.randrange(8), 'ow': 50.0, 'oh': 20.0}
+            case['settings'] = {f: s for f in ('ff', 'fill', 'bg', 'sc') if rng.random() < 0.6} or {'bg': s}
         if ch == 'legend' and rng.random() < 0.3:
             case['dup'] = True
         ctx.run_case(case)
